@@ -65,12 +65,17 @@ def frozen_datetime(now_us: int, local_off_us: int = 0) -> type:
 
 
 @contextlib.contextmanager
-def real_run_module(now_us: int, local_off_us: int = 0) -> Iterator[types.ModuleType]:
-    """the real taskiq.cli.scheduler.run with a frozen clock (concrete replay)."""
+def real_run_module(now_us: int, local_off_us: int = 0, fresh: bool = False) -> Iterator[types.ModuleType]:
+    """the real taskiq.cli.scheduler.run with a frozen clock (concrete replay); `fresh` re-executes the module first, so
+    that module-level state left by earlier evaluations in this process (caches a change may introduce) is gone."""
+    import importlib
     import os
     import time
 
     import taskiq.cli.scheduler.run as run
+
+    if fresh:
+        run = importlib.reload(run)
 
     old = run.datetime
     old_tz = os.environ.get("TZ")
